@@ -6,7 +6,9 @@ import (
 	"fmt"
 	"math/rand"
 	"os"
+	"regexp"
 	"sort"
+	"strconv"
 	"strings"
 	"sync"
 	"sync/atomic"
@@ -144,6 +146,8 @@ func (r *refModel) visibleToOpen(v *refVer) bool {
 	}
 	return false
 }
+
+var mvStatRe = regexp.MustCompile(`"(\w+)":\s+(-?\d+)`)
 
 // ---------------------------------------------------------------------------------------------
 // executor
@@ -471,6 +475,35 @@ func (e *mvExec) checkPhysical(ph []physVer, afterGC bool) {
 		}
 		if mustGo && !mustStay && present[k] > 0 {
 			e.fail("c06-complete", fmt.Sprintf("version #%d %v (born %d dead %d) can be seen by no open snapshot, all earlier snapshots are closed and a GC pass ran, but it is still in the store", vid, v.item, v.born, v.dead))
+		}
+	}
+	// statistics against the walk (C14 / C06: node count, memory, allocations minus frees)
+	if afterGC {
+		st := e.db.VerifStore()
+		var mem int64
+		n, _ := st.HeadNode().VerifNext(0)
+		cnt := 0
+		for n != st.TailNode() && n != nil {
+			next, del := n.VerifNext(0)
+			if !del {
+				mem += int64(st.Size(n))
+				cnt++
+			}
+			n = next
+		}
+		stats := map[string]int64{}
+		for _, m := range mvStatRe.FindAllStringSubmatch(e.db.DumpStats(), -1) {
+			v, _ := strconv.ParseInt(m[2], 10, 64)
+			stats[m[1]] = v
+		}
+		if int(stats["node_count"]) != cnt || stats["soft_deletes"] != 0 {
+			e.fail("c14-stats", fmt.Sprintf("statistics at quiescence: node_count=%d soft_deletes=%d, a walk of level 0 finds %d nodes", stats["node_count"], stats["soft_deletes"], cnt))
+		}
+		if stats["memory_used"] != mem {
+			e.fail("c14-stats", fmt.Sprintf("statistics at quiescence: memory_used=%d, the linked nodes and their items account for %d bytes", stats["memory_used"], mem))
+		}
+		if e.in.MM && stats["node_allocs"]-stats["node_frees"] != int64(cnt) {
+			e.fail("c14-stats", fmt.Sprintf("statistics at quiescence: node_allocs-node_frees=%d, %d nodes are linked", stats["node_allocs"]-stats["node_frees"], cnt))
 		}
 	}
 	for k, c := range present {
